@@ -219,3 +219,65 @@ macro_rules! with_kmer {
 }
 pub const ALL_K: [usize; 17] = [4, 5, 6, 8, 10, 12, 14, 15, 16, 20, 24, 30, 31, 32, 40, 48, 64];
 pub const BIG_K: [usize; 14] = [8, 10, 12, 14, 15, 16, 20, 24, 30, 31, 32, 40, 48, 64];
+
+/// Iterator-contract laws for an iterator that can be re-created: every std adaptor that an implementation may
+/// specialise (nth, skip, step_by, last, count) must agree with plain next() iteration, i.e. with `expected`.
+/// The adaptors are applied to the RAW iterator (a `.map()` in between would hide an overridden `nth`); `conv`
+/// turns an item into its comparable form afterwards.
+pub fn iterator_laws_by<I: Iterator, T: PartialEq + std::fmt::Debug>(what: &str, mk: &dyn Fn() -> I, conv: &dyn Fn(I::Item) -> T, expected: &[T]) -> Option<String> {
+    let len = expected.len();
+    let collected: Vec<T> = mk().map(conv).collect();
+    if collected != expected {
+        return Some(format!("{}: plain iteration yields {} items, want {}", what, collected.len(), len));
+    }
+    let mut ns = vec![0usize, 1, 2, len.saturating_sub(2), len.saturating_sub(1), len, len + 1, len + 7];
+    ns.sort();
+    ns.dedup();
+    for &n in &ns {
+        let mut it = mk();
+        let got = it.nth(n).map(conv);
+        if got.as_ref() != expected.get(n) {
+            return Some(format!("{}: nth({}) = {:?}, want {:?} (len {})", what, n, got, expected.get(n), len));
+        }
+        let after = it.next().map(conv);
+        if after.as_ref() != expected.get(n + 1) {
+            return Some(format!("{}: next() after nth({}) = {:?}, want {:?}", what, n, after, expected.get(n + 1)));
+        }
+        let sk: Vec<T> = mk().skip(n).map(conv).collect();
+        if sk[..] != expected[n.min(len)..] {
+            return Some(format!("{}: skip({}) yields {} items, want {}", what, n, sk.len(), len - n.min(len)));
+        }
+        if n >= 1 && n <= len {
+            let mut it = mk();
+            it.next();
+            let g = it.nth(n - 1).map(conv);
+            if g.as_ref() != expected.get(n) {
+                return Some(format!("{}: next(); nth({}) = {:?}, want {:?}", what, n - 1, g, expected.get(n)));
+            }
+        }
+    }
+    for s in 1..=3usize {
+        let st: Vec<T> = mk().step_by(s).map(conv).collect();
+        let want: Vec<&T> = expected.iter().step_by(s).collect();
+        if st.iter().collect::<Vec<&T>>() != want {
+            return Some(format!("{}: step_by({}) yields {:?}", what, s, st));
+        }
+    }
+    if mk().count() != len {
+        return Some(format!("{}: count() = {}, want {}", what, mk().count(), len));
+    }
+    if mk().last().map(conv).as_ref() != expected.last() {
+        return Some(format!("{}: last() wrong", what));
+    }
+    let mut it = mk();
+    for _ in 0..len {
+        it.next();
+    }
+    if it.next().is_some() || it.next().is_some() {
+        return Some(format!("{}: yields an item after the end", what));
+    }
+    None
+}
+pub fn iterator_laws<T: PartialEq + std::fmt::Debug, I: Iterator<Item = T>>(what: &str, mk: &dyn Fn() -> I, expected: &[T]) -> Option<String> {
+    iterator_laws_by(what, mk, &|x| x, expected)
+}
